@@ -43,7 +43,9 @@ def main():
         results[sid] = entry
         meta_f = d / 'meta.json'
         meta = json.loads(meta_f.read_text()) if meta_f.exists() else {'property': prop}
+        head = subprocess.run(['git', '-C', '/repo', 'log', '--format=%h', '-1'], stdout=subprocess.PIPE, text=True).stdout.strip()
         meta['coordinator_verification'] = {
+            'repo_head': head,
             'ran': f'tools/try_seed.sh seeded/{sid} <prop>: scratch worktree of /repo HEAD + patch; demo with/without the change; '
                    f'./check <prop> --tier quick with NAVIS_REPO=<worktree>',
             'demo_fails_with_change': entry[prop].get('demo_with_change') not in (0, None),
